@@ -147,6 +147,8 @@ def run_cases(chk, binp, cases, pf_ok, pf):
         "obligations": pf["obligations"], "discharged": pf["discharged"], "theorems": pf["theorems"],
         "checker_cmd": "make -C coq && coqc -Q theories Verif theories/Properties/C16.v",
         "trusted_base": C.TRUSTED_BASE_COMMON + ["axioms: " + (", ".join(pf["axioms"]) or "none"),
+                                                 "typed values: the theorems assume exact_iface and carrier_iface of the numeric implementation; the Flocq binary64 "
+                                                 "instance is not proved to satisfy them (compared with the reading on every case inside the typed class instead)",
                                                  "exact oracle lib/simplerun.py:simple_ok (python fractions) for the failing-input search"],
         "evaluations": len(J), "distinct_nontrivial": len(distinct),
         "cases_inside_the_proved_class": inside[0], "of_which_go_differs_from_the_reading": inside[1],
